@@ -56,6 +56,35 @@ def run_impl(case, outcome):
 
     op = case["op"]
     outcome.count("op:" + op)
+    if op == "eq-edit":
+        # two equal messages are compared, one is then edited IN PLACE (a child's attribute or text, the children list),
+        # and they are compared again: every comparison must reflect the contents at that moment
+        a, b = build(case["a"]), build(case["a"])
+        first = (a == b)
+        qs = [Query("spec eq %s %s" % (enc_msg(msg_view(a)), enc_msg(msg_view(b))), enc_bool(first), "oracle", "== on two freshly built copies")]
+        kind, i, val = case["edit"]
+        ch = list(b.children)
+        if kind == "child-value":
+            ch[i].value = val
+        elif kind == "child-name":
+            ch[i].name = val
+        elif kind == "drop-child":
+            del ch[i]
+            b.children = tuple(ch) if isinstance(b.children, tuple) else ch
+        elif kind == "swap":
+            ch[i], ch[i + 1] = ch[i + 1], ch[i]
+            b.children = tuple(ch) if isinstance(b.children, tuple) else ch
+        second = (a == b)
+        third = (b == a)
+        va, vb = msg_view(a), msg_view(b)
+        outcome.nontrivial.add((enc_msg(va), enc_msg(vb), kind))
+        note = "== after an in-place edit (%s) of a message that had been compared before" % kind
+        qs.append(Query("spec eq %s %s" % (enc_msg(va), enc_msg(vb)), enc_bool(second), "oracle", note))
+        qs.append(Query("spec eq %s %s" % (enc_msg(vb), enc_msg(va)), enc_bool(third), "oracle", note))
+        # and a rebuilt copy of the edited contents equals it
+        c = build(case["a"])
+        qs.append(Query("spec eq %s %s" % (enc_msg(va), enc_msg(msg_view(c))), enc_bool(a == c), "oracle", "== against a rebuilt copy"))
+        return qs
     if op == "eq":
         a, b = build(case["a"]), build(case["b"])
         res = a == b
@@ -314,6 +343,17 @@ def gen_eq_cases(rng, tier):
             a2 = clone(a); a2["kw"][k] = "w" * 200
             b2 = clone(a2); b2["kw"][k] = "w" * 199 + "v"
             yield {"op": "eq", "a": a2, "b": b2, "rel": "long-attr-changed:" + k}
+    # histories: compare, edit in place, compare again
+    for tag, (cls, base, optional, child, vkind) in MSGS.items():
+        if child is None:
+            continue
+        kind = PARTS[child][2]
+        vals = VALUE_OF_KIND[kind]
+        a = msg_recipe(tag, (), [part_recipe(child, "e0", vals[0]), part_recipe(child, "e1", vals[1 % len(vals)]), part_recipe(child, "e2", vals[0])])
+        for edit in (["child-value", 0, vals[1 % len(vals)]], ["child-value", 2, vals[1 % len(vals)]], ["child-name", 1, "renamed"], ["drop-child", 1, None], ["swap", 0, None]):
+            if edit[0] == "child-value" and edit[2] is None:
+                continue
+            yield {"op": "eq-edit", "a": a, "edit": edit}
     # int vs str rendering of an attribute: same wire view, must be equal
     a = msg_recipe("setBLOBVector", (), [part_recipe("oneBLOB", "e", "QUJD", {"size": 3})])
     b = msg_recipe("setBLOBVector", (), [part_recipe("oneBLOB", "e", "QUJD", {"size": "3"})])
